@@ -342,6 +342,17 @@ impl Prop for C03 {
 
 pub struct C18;
 
+fn is_default(v: &basic::mach::Val) -> bool {
+    use basic::mach::Val;
+    match v {
+        Val::String(s) => s.is_empty(),
+        Val::Integer(n) => *n == 0,
+        Val::Single(x) => *x == 0.0,
+        Val::Double(x) => *x == 0.0,
+        Val::Return(_) | Val::Next(_) => false,
+    }
+}
+
 /// (name, set-up lines, loop body) — bodies that complete must leave the stack where it was.
 const BODIES: [(&str, &str, &str); 22] = [
     ("ON-GOSUB-out-of-range", "", "ON 0 GOSUB 900:ON 3 GOSUB 900,900"),
@@ -406,7 +417,8 @@ impl C18 {
             s.enter(l);
             s.drain(8);
         }
-        let mark = s.mark();
+        let mut mark = s.mark();
+        let live_before = crate::alloc::live();
         s.enter("RUN");
         let mut max_stack = 0usize;
         let mut max_vars = 0usize;
@@ -421,6 +433,11 @@ impl C18 {
                 Some(_) => break,
                 None => {}
             }
+            if s.log.len() > 2000 {
+                // the harness's own event log must not count as heap growth of the interpreter
+                s.log.drain(..1900);
+                mark = 0;
+            }
             if s.calls % 7 == 0 {
                 let pr = s.rt.verif_probe();
                 max_stack = max_stack.max(pr.stack.len());
@@ -431,7 +448,6 @@ impl C18 {
                 }
             }
         }
-        let t = transcript(s.events_since(mark), Norm::STD);
         ctx.eval(&text, true);
         ctx.cover("statement_forms_looped", name);
         ctx.add("probe_samples", samples);
@@ -440,6 +456,19 @@ impl C18 {
         ctx.max("max_variables_seen_in_leak_loops", max_vars as u64);
         if ctx.want_sample() {
             ctx.sample(&format!("{}\n(max stack depth sampled: {}, {} probe samples)", text, max_stack, samples));
+        }
+        let t = transcript(s.events_since(mark), Norm::STD);
+        s.log.clear();
+        s.log.shrink_to_fit();
+        let live_after = crate::alloc::live();
+        ctx.max("max_live_heap_growth_over_a_leak_loop_bytes", live_after.saturating_sub(live_before) as u64);
+        if live_after > live_before + 512 * 1024 {
+            ctx.violation(
+                "heap-growth",
+                &format!("leak-heap:{}", name),
+                &format!("looping {:?} {} times: live heap grew from {} to {} bytes", body, n, live_before, live_after),
+                &text,
+            );
         }
         let expect_tail = format!("OK {} \nREADY.\n<STOPPED>", n);
         if max_stack > 200 || !stopped || !t.ends_with(&expect_tail) {
@@ -490,6 +519,8 @@ impl C18 {
             s.drain(8);
         }
         let mark = s.mark();
+        crate::alloc::reset_peak();
+        let live_before = crate::alloc::live();
         s.enter("RUN");
         let mut max_stack = 0usize;
         let mut stopped = false;
@@ -525,6 +556,17 @@ impl C18 {
         ctx.max("max_code_len_seen", pr.code_len as u64);
         ctx.max("max_data_len_seen", pr.data_len as u64);
         ctx.max("max_variables_seen_at_limits", pr.vars.len() as u64);
+        let high_water = crate::alloc::peak().saturating_sub(live_before);
+        ctx.max("max_heap_high_water_at_a_limit_bytes", high_water as u64);
+        if high_water > 96 * 1024 * 1024 {
+            ctx.violation(
+                "heap-high-water",
+                &format!("limit:{}:heap", name),
+                &format!("driving the pool past its limit allocated {} bytes above the starting level (bound 96 MiB)", high_water),
+                &text,
+            );
+            return;
+        }
         if !stopped || !t.contains("?OUT OF MEMORY") {
             let tail: String = t.chars().rev().take(300).collect::<Vec<char>>().into_iter().rev().collect();
             ctx.violation(
@@ -568,6 +610,266 @@ impl C18 {
         }
     }
 
+
+    /// Stack-shape (conservation) monitor: a generated program is looped and marked with `Z9=Z9+1`
+    /// statements; the reference interpreter says how many FOR and GOSUB frames are open at each
+    /// marker, the real value stack is read through the probe each time Z9 changes.
+    fn shape_case(&self, rng: &mut Rng, ctx: &mut Ctx) {
+        let o = Opts { data: rng.coin(), func: rng.chance(1, 3), tron: false, stop: false, max_lines: 30 };
+        let mut p = gen::generate(rng, o);
+        let passes = rng.range(2, 9);
+        if !gen::loop_and_mark(&mut p, rng, passes) {
+            ctx.count("shape_discarded_no_end");
+            ctx.evals += 1;
+            return;
+        }
+        let lines = gen::render(&p);
+        let text = lines.join("\n");
+        mon::journal(&text);
+        let m = gen::model_run(&p, 60_000);
+        if let gen::End::Unspec(why) = m.end {
+            ctx.count(&format!("shape_discarded_unspecified_{}", why));
+            ctx.evals += 1;
+            return;
+        }
+        let mut s = Session::new();
+        s.drain(8);
+        for l in &lines {
+            s.enter(l);
+            s.drain(8);
+        }
+        s.quantum = 1;
+        s.enter("RUN");
+        let mut last_z = 0.0f64;
+        let mut shapes: Vec<usize> = vec![];
+        let mut stopped = false;
+        let mut steps = 0u64;
+        for _ in 0..2_000_000u64 {
+            match s.step() {
+                Some(Stop::Stopped) => {
+                    stopped = true;
+                    break;
+                }
+                Some(_) => break,
+                None => {}
+            }
+            steps += 1;
+            let pr = s.rt.verif_probe();
+            let mut z = 0.0f64;
+            for (k, v) in &pr.vars {
+                if k == gen::MARKER {
+                    if let basic::mach::Val::Single(x) = v {
+                        z = *x as f64;
+                    }
+                }
+                if is_default(v) {
+                    ctx.violation(
+                        "default-stored",
+                        "shape:default-stored",
+                        &format!("the variable pool holds {:?} = {:?}: a default value occupies a slot", k, v),
+                        &text,
+                    );
+                    return;
+                }
+            }
+            if z != last_z {
+                last_z = z;
+                shapes.push(pr.stack.len());
+            }
+        }
+        let want: Vec<usize> = m.shape_log.iter().map(|(f, g)| (4 * f + g) as usize).collect();
+        let flat = m.shape_log.iter().all(|x| *x == (0, 0));
+        ctx.eval(&text, want.len() >= 6 && m.kinds.len() >= 4);
+        ctx.add("shape_markers_compared", want.len() as u64);
+        ctx.add("shape_single_steps_probed", steps);
+        ctx.max("shape_max_open_frames_at_a_marker", m.shape_log.iter().map(|(f, g)| (f + g) as u64).max().unwrap_or(0));
+        ctx.count(if flat { "shape_programs_all_markers_at_depth_0" } else { "shape_programs_with_open_frames_at_markers" });
+        for k in &m.kinds {
+            ctx.cover("shape_model_statement_kinds", k);
+        }
+        if !stopped {
+            ctx.violation("no-stop", "shape:no-stop", "looped program did not stop within 2,000,000 single steps", &text);
+            return;
+        }
+        if shapes != want {
+            let i = shapes.iter().zip(want.iter()).position(|(a, b)| a != b).unwrap_or(shapes.len().min(want.len()));
+            ctx.violation(
+                "stack-shape",
+                "shape:mismatch",
+                &format!(
+                    "value-stack depth at marker #{} is {:?}, the reference interpreter has {:?} open (FOR,GOSUB) frames = depth {:?}; {} markers seen, {} expected\nreal : {:?}\nmodel: {:?}",
+                    i,
+                    shapes.get(i),
+                    m.shape_log.get(i),
+                    want.get(i),
+                    shapes.len(),
+                    want.len(),
+                    &shapes[..shapes.len().min(60)],
+                    &want[..want.len().min(60)]
+                ),
+                &text,
+            );
+            return;
+        }
+        if ctx.want_sample() && want.len() > 10 {
+            ctx.sample(&format!("{}\n(stack depth at the {} markers: {:?})", text, want.len(), &want[..want.len().min(40)]));
+        }
+        // the same program for many passes at full speed: a flat shape must stay flat, and the heap too
+        if flat && matches!(m.end, gen::End::Normal) && rng.chance(1, 4) {
+            let big = 3000i64;
+            let lines2: Vec<String> = lines.iter().map(|l| l.replace(&format!("Z8<{} ", passes), &format!("Z8<{} ", big))).collect();
+            if lines2 == lines {
+                return;
+            }
+            let mut s = Session::new();
+            s.drain(8);
+            for l in &lines2 {
+                s.enter(l);
+                s.drain(8);
+            }
+            mon::journal(&lines2.join("\n"));
+            s.enter("RUN");
+            let mut live_early = 0usize;
+            let mut max_stack = 0usize;
+            let mut st = Stop::Budget;
+            for i in 0..200_000u64 {
+                match s.step() {
+                    Some(x) => {
+                        st = x;
+                        break;
+                    }
+                    None => {}
+                }
+                if i == 40 {
+                    s.log.clear();
+                    s.log.shrink_to_fit();
+                    live_early = crate::alloc::live();
+                }
+                if i % 16 == 0 {
+                    max_stack = max_stack.max(s.rt.verif_probe().stack.len());
+                    if i > 40 {
+                        s.log.clear();
+                    }
+                }
+            }
+            s.log.clear();
+            s.log.shrink_to_fit();
+            let live_end = crate::alloc::live();
+            ctx.count("shape_long_runs");
+            ctx.max("shape_long_run_max_stack", max_stack as u64);
+            let pr = s.rt.verif_probe();
+            if st != Stop::Stopped || max_stack > 64 || pr.stack.len() > 64 {
+                ctx.violation(
+                    "leak",
+                    "shape:long-run",
+                    &format!("{} passes of a program whose frames all close: stop={:?}, max stack depth {}, final {}", big, st, max_stack, pr.stack.len()),
+                    &lines2.join("\n"),
+                );
+                return;
+            }
+            if live_early > 0 && live_end > live_early + 256 * 1024 {
+                ctx.violation(
+                    "heap-growth",
+                    "shape:heap-growth",
+                    &format!("live heap grew from {} to {} bytes over {} passes of a program that leaves nothing behind", live_early, live_end, big),
+                    &lines2.join("\n"),
+                );
+            }
+        }
+    }
+
+    /// Every way of making a variable 0 / "" again frees its slot.
+    fn zeroing_case(&self, rng: &mut Rng, ctx: &mut Ctx) {
+        // (make non-default, make default again)
+        const FORMS: [(&str, &str); 22] = [
+            ("A%=1", "A%=A%/2"),
+            ("A%=7", "A%=0.4"),
+            ("B!=1", "B!=1D-60"),
+            ("C#=3", "C#=0"),
+            ("D$=\"X\"", "D$=\"\""),
+            ("E$=\"X\"", "E$=MID$(E$,2)"),
+            ("F=5", "F=F-5"),
+            ("G%(3)=7", "G%(3)=G%(3) MOD 7"),
+            ("H!=1", "H!=H!*0"),
+            ("I=3:J=0", "SWAP I,J:J=0"),
+            ("K=2", "FOR K=-1 TO -1:NEXT"),
+            ("L$=\"AB\"", "L$=LEFT$(L$,0)"),
+            ("M(1,2)=4", "M(1,2)=M(1,2)-4"),
+            ("N#=1", "N#=N#-1"),
+            ("O%=5", "O%=O% AND 2"),
+            ("P=1", "P=P=0"),
+            ("Q$(2)=\"Z\"", "Q$(2)=\"\""),
+            ("R=1", "R=INT(R/2)"),
+            ("S%=1", "S%=-0.5+0.5"),
+            ("T!=1", "T!=T!-T!"),
+            ("U$=\"AB\"", "MID$(U$,1)=\"CD\":U$=RIGHT$(U$,0)"),
+            ("V=3", "V=VAL(\"\")"),
+        ];
+        let mut order: Vec<usize> = (0..FORMS.len()).collect();
+        rng.shuffle(&mut order);
+        let k = rng.range(4, FORMS.len() as i64) as usize;
+        let mut script: Vec<String> = vec![];
+        let mut s = Session::new();
+        s.drain(8);
+        for &i in &order[..k] {
+            script.push(FORMS[i].0.to_string());
+        }
+        let mut zero: Vec<usize> = order[..k].to_vec();
+        rng.shuffle(&mut zero);
+        for &i in &zero {
+            script.push(FORMS[i].1.to_string());
+        }
+        let text = script.join("\n");
+        mon::journal(&text);
+        let mut filled = 0usize;
+        for (n, l) in script.iter().enumerate() {
+            let mark = s.mark();
+            if s.command(l, 64) != Stop::Stopped {
+                ctx.violation("no-stop", "zeroing:no-stop", "no return to the prompt", &text);
+                return;
+            }
+            if s.events_since(mark).iter().any(|e| matches!(e, Ev::Error(..))) {
+                ctx.violation(
+                    "unexpected-error",
+                    "zeroing:error",
+                    &format!("{:?} reported {:?}", l, transcript(s.events_since(mark), Norm::STD)),
+                    &text,
+                );
+                return;
+            }
+            let pr = s.rt.verif_probe();
+            if n + 1 == k {
+                filled = pr.vars.len();
+            }
+            for (name, v) in &pr.vars {
+                if is_default(v) {
+                    ctx.violation(
+                        "default-stored",
+                        &format!("zeroing:default-stored:{}", l.split('=').next().unwrap_or("")),
+                        &format!("after {:?} the variable pool holds {:?} = {:?}: a default value occupies a slot", l, name, v),
+                        &text,
+                    );
+                    return;
+                }
+            }
+        }
+        let pr = s.rt.verif_probe();
+        ctx.eval(&text, true);
+        ctx.add("zeroing_forms_exercised", k as u64);
+        ctx.max("zeroing_slots_when_filled", filled as u64);
+        if filled + 1 < k || !pr.vars.is_empty() || !pr.stack.is_empty() {
+            ctx.violation(
+                "slots-not-freed",
+                "zeroing:slots",
+                &format!("{} slots after filling ({} variables set), {:?} left after zeroing them all, stack depth {}", filled, k, pr.vars, pr.stack.len()),
+                &text,
+            );
+        }
+        if ctx.want_sample() {
+            ctx.sample(&text);
+        }
+    }
+
     fn slots_case(&self, ctx: &mut Ctx) {
         // setting variables back to 0 / "" frees their slots
         let lines = [
@@ -604,8 +906,12 @@ impl C18 {
 }
 
 impl Prop for C18 {
-    fn cases(&self, _tier: Tier) -> u64 {
+    fn cases(&self, tier: Tier) -> u64 {
         (BODIES.len() + LIMITS.len() + 3) as u64
+            + match tier {
+                Tier::Quick => 3_000,
+                Tier::Thorough => 150_000,
+            }
     }
 
     fn cpu_budget_s(&self) -> u64 {
@@ -621,8 +927,19 @@ impl Prop for C18 {
          (b) 9 pools driven past their limit (GOSUB, FN and mutual FN recursion, abandoned FOR, re-entered ON..GOSUB, \
          3x32001 numeric and string array elements, >64K code, >64K DATA): must report OUT OF MEMORY, the value stack and variable \
          pools may never exceed 65,600 cells at any probe (code/data: that plus the source size), PRINT must work afterwards and NEW must release the pools. (c) filling \
-         10,002 array slots and resetting them to 0 / \"\" must leave 0 slots. Every case is distinct by construction \
-         and non-trivial."
+         10,002 array slots and resetting them to 0 / \"\" must leave 0 slots. Cases (a)-(c) are distinct by construction \
+         and non-trivial. (d) stack-shape monitor: random structured programs (FOR/NEXT with early exits, WHILE, GOSUB, \
+         ON..GOSUB, IF/ELSE, READ/DATA, DEF FN) are looped 2..9 times and marked with Z9=Z9+1 statements at random line \
+         starts; the program is single-stepped (execute(1)) and every time the probe shows Z9 changed the value-stack \
+         depth must equal 4*F+G where the reference interpreter has F open FOR and G open GOSUB frames at that marker \
+         (a completed statement leaves nothing, an abandoned loop exactly one frame); the probe also asserts that no \
+         default value (0 / \"\") occupies a variable slot. One in four all-flat programs is then run for 3000 passes \
+         at full speed: stack depth <= 64 and live heap bytes (counting allocator) may not grow by more than 256 KiB. \
+         (e) zeroing monitor: 4..22 variables of every type are set, then made 0 / \"\" again in 22 different ways \
+         (literal, arithmetic, coercion A%=0.4, underflow, MOD, string functions, SWAP, FOR, VAL); the pool must be \
+         empty. Heap: the counting allocator bounds the high-water mark at every limit (96 MiB) and the growth over \
+         every leak loop (512 KiB). Distinct = hash of program text; non-trivial for (d) = >= 6 markers and >= 4 \
+         statement kinds."
     }
 
     fn run_case(&mut self, idx: u64, rng: &mut Rng, ctx: &mut Ctx) {
@@ -635,8 +952,12 @@ impl Prop for C18 {
             self.big_program_case(false, ctx)
         } else if i == BODIES.len() + LIMITS.len() + 1 {
             self.big_program_case(true, ctx)
-        } else {
+        } else if i == BODIES.len() + LIMITS.len() + 2 {
             self.slots_case(ctx)
+        } else if i % 5 == 0 {
+            self.zeroing_case(rng, ctx)
+        } else {
+            self.shape_case(rng, ctx)
         }
     }
 }
